@@ -106,6 +106,25 @@ func c20Enumerate(tier string) []c20Case {
 			}
 		}
 	}
+	// no generations at all (num_generations = 0): the configured number of trials is still executed - spawned, started, finished
+	// and recorded - each without a single evaluation
+	for R := 1; R <= maxR; R++ {
+		solved := make([]int, R)
+		for i := range solved {
+			solved[i] = -1
+		}
+		for _, obs := range []bool{true, false} {
+			for _, par := range []bool{false, true} {
+				for pre := 0; pre <= 2; pre++ {
+					cases = append(cases, c20Case{Runs: R, Gens: 0, SolvedAt: solved, Observer: obs, Parallel: par, Fault: c20Fault{Kind: "none"}, Prealloc: pre})
+				}
+			}
+		}
+		for r := 0; r < R; r++ {
+			cases = append(cases, c20Case{Runs: R, Gens: 0, SolvedAt: solved, Observer: true, Fault: c20Fault{"cancel_in_trial_started", r, 0}})
+			cases = append(cases, c20Case{Runs: R, Gens: 0, SolvedAt: solved, Observer: true, Fault: c20Fault{"cancel_in_trial_finished", r, 0}})
+		}
+	}
 	// long runs beyond the enumerated bounds: 5-40 trials of up to 5-35 generations, PRNG-chosen solved patterns (a fixed list, the
 	// same at every seed), fault-free and with one fault at a PRNG-chosen position
 	nLong := 48
